@@ -140,6 +140,7 @@ func neutraliseEqualKeys(c *Case) (*Case, bool) {
 			return
 		}
 		seen := map[string]bool{}
+		markers := map[string]bool{}
 		for i := range n.KV {
 			s := nodeSig(n.KV[i][0])
 			if s == "" {
@@ -151,6 +152,16 @@ func neutraliseEqualKeys(c *Case) (*Case, bool) {
 				changed = true
 			}
 			seen[s] = true
+			// C16's value markers: a pair that was an exact copy of another one (same marker) is a
+			// pair of its own once its key is distinct
+			if v := n.KV[i][1]; v != nil && v.K == "call" && len(v.N) > 0 && v.N[0].K == "id" && strings.HasPrefix(v.N[0].S, "M_") {
+				if markers[v.N[0].S] {
+					uniq++
+					v.N[0] = &Node{K: "id", S: fmt.Sprintf("M_%d", 900000+uniq)}
+					changed = true
+				}
+				markers[v.N[0].S] = true
+			}
 		}
 	})
 	return withRecipe(c, nr), changed
